@@ -1,6 +1,7 @@
 package eng
 
 import (
+	"go/token"
 	"sync"
 
 	"verif/gosym/sym"
@@ -200,6 +201,60 @@ func (in *Interp) strConcat(a, b *Str) *Str {
 		}
 		return st.Ite(st.Lt(i, la), va.at(i), vb.at(st.Sub(i, la)))
 	}}
+}
+
+// enumOrdered: a < b (<=, >, >=) for finite-domain strings as a Bool term: the disjunction of the selector pairs whose
+// alternatives compare that way; nil when an operand is neither an enum nor concrete.
+func (in *Interp) enumOrdered(op token.Token, a, b *Str) *sym.Term {
+	st := in.St
+	alts := func(x *Str) ([]string, *sym.Term) {
+		switch x.kind {
+		case sConc:
+			return []string{x.conc}, nil
+		case sEnum:
+			if x.parts != nil {
+				return nil, nil
+			}
+			return x.alts, x.sel
+		}
+		return nil, nil
+	}
+	aa, sa := alts(a)
+	ba, sb := alts(b)
+	if aa == nil || ba == nil {
+		return nil
+	}
+	var ds []*sym.Term
+	for i, x := range aa {
+		for j, y := range ba {
+			var r bool
+			switch op {
+			case token.LSS:
+				r = x < y
+			case token.LEQ:
+				r = x <= y
+			case token.GTR:
+				r = x > y
+			case token.GEQ:
+				r = x >= y
+			}
+			if !r {
+				continue
+			}
+			c := st.True
+			if sa != nil {
+				c = st.And(c, st.Eq(sa, st.Int(int64(i))))
+			}
+			if sb != nil {
+				c = st.And(c, st.Eq(sb, st.Int(int64(j))))
+			}
+			ds = append(ds, c)
+		}
+	}
+	if len(ds) == 0 {
+		return st.False
+	}
+	return st.Or(ds...)
 }
 
 // strEq: Go string equality as a Bool term.
